@@ -221,3 +221,27 @@ Proof.
   intros ext cur nw e H. unfold set_external in H.
   destruct (cur <? nw) eqn:A; [discriminate|]. destruct (nw <? ext) eqn:B; [discriminate|]. injection H as <-. lia.
 Qed.
+
+(* ---------- SetCommitWaitUntilTSO: the constraint in effect is the maximum over the registration sequence ---------- *)
+Lemma set_cw_fold : forall regs c, c <= fold_left set_cw regs c /\ (forall r, In r regs -> r <= fold_left set_cw regs c) /\
+  (fold_left set_cw regs c = c \/ In (fold_left set_cw regs c) regs).
+Proof.
+  induction regs as [|x regs IH]; intros c; cbn [fold_left].
+  - split; [lia|split; [intros r []|left; reflexivity]].
+  - destruct (IH (set_cw c x)) as [A [B C]]. unfold set_cw in *. destruct (c <? x) eqn:E.
+    + split; [lia|split].
+      * intros r [<-|H]; [exact A|apply B, H].
+      * destruct C as [C|C]; [right; left; symmetry; exact C|right; right; exact C].
+    + split; [exact A|split].
+      * intros r [<-|H]; [lia|apply B, H].
+      * destruct C as [C|C]; [left; exact C|right; right; exact C].
+Qed.
+
+Lemma commit_wait_regs_ok : forall regs ms fuel script ts c,
+  commit_wait_regs regs ms fuel script = (CwOk ts, c) ->
+  (forall r, In r regs -> r < ts) /\ 0 < ts /\ In (Some ts) script.
+Proof.
+  intros regs ms fuel script ts c H. unfold commit_wait_regs in H. destruct (commit_wait_ok _ _ _ _ _ _ H) as [A B].
+  destruct (set_cw_fold regs 0) as [F0 [F1 _]]. unfold cw_bound in A. split; [|split; [lia|exact B]].
+  intros r Hr. specialize (F1 r Hr). lia.
+Qed.
